@@ -277,6 +277,12 @@ class StmtLoop(C.LoopSpec):
             seen = getattr(it, "checked_reads", [])
             want = s.fields["__reads__"] + s.fields["__refreads__"]
             it.ctx.prove(QUAL + "/search_invalid_temporaries#loop1#every-read-checked", all(any(x is y for y in seen) for x in want))
+        if kind in (0, 2):
+            # the operand a control statement branches on (if test, case subject) is read BEFORE any branch runs:
+            # an intermediate computed in only one branch of an earlier statement must be rejected here as well
+            seen = getattr(it, "checked_reads", [])
+            ctrl = s.fields["_test"] if kind == 0 else s.fields["_value"]
+            it.ctx.prove(QUAL + "/search_invalid_temporaries#loop1#control-operand-checked", any(ctrl is y for y in seen))
         it.checked_reads = []
         st["G"] = z3.SetUnion(st["G"], da)
 
@@ -315,9 +321,11 @@ class CaseLoop(C.LoopSpec):
         return True
 
     def next_item(self, it, frame, st):
-        return (any_obj(it, "branch_cond"), block(it))
+        st["cond"] = any_obj(it, "branch_cond")
+        return (st["cond"], block(it))
 
     def advance(self, it, frame, st):
+        it.ctx.prove(QUAL + "/search_invalid_temporaries#loop2#choice-operand-checked", any(st["cond"] is y for y in getattr(it, "checked_reads", [])))
         g = it.sub_calls[0] if len(it.sub_calls) == 1 else None
         if g is None:
             it.ctx.prove(QUAL + "/search_invalid_temporaries#loop2#ghost-structure", False)
